@@ -250,3 +250,62 @@ func Harness_C11_depth() {
 func hItoa(i int) string {
 	return string(rune('0' + i))
 }
+
+// Harness_C05_resolve_twice: the same book resolved twice, the executor choosing the visiting
+// orders of the two runs independently: same success/failure, identical results.
+func Harness_C05_resolve_twice() {
+	K, M, L := verifBound("K", 3), verifBound("M", 1), verifBound("L", 1)
+	N := 1 + verifChoose("N", verifBound("Nmax", 4))
+	// two structurally identical books from one set of choices and coefficients
+	recipes := []string{"r0", "r1", "r2", "r3", "r4"}[:K]
+	leaves := []string{"x", "y", "z"}[:L]
+	db1, db2 := shared.NewDBNodeMap(), shared.NewDBNodeMap()
+	ref := &hBook{names: recipes, rec: map[string][]hIng{}}
+	for i := 0; i < K; i++ {
+		n := verifChoose("n", M+1)
+		e1, e2 := shared.NewElements(), shared.NewElements()
+		var ings []hIng
+		for j := 0; j < n; j++ {
+			c := verifChoose("ing", K+L)
+			q := verifFloat("q")
+			name := ""
+			if c < K {
+				name = recipes[c]
+			} else {
+				name = leaves[c-K]
+			}
+			e1.Add(name, q)
+			e2.Add(name, q)
+			ings = append(ings, hIng{name, q})
+		}
+		db1.Push(&shared.DBNode{Header: recipes[i], Elements: e1})
+		db2.Push(&shared.DBNode{Header: recipes[i], Elements: e2})
+		ref.rec[recipes[i]] = ings
+	}
+	chain := ref.longestChain(N + 2)
+	if chain == N {
+		verifLabel("chain-vs-N", "chain==N")
+	} else if chain < N {
+		verifLabel("chain-vs-N", "chain<N")
+	} else {
+		verifLabel("chain-vs-N", "chain>N")
+	}
+	verifLabel("unit", "resolve")
+	o1, err1 := Resolve(Config{MaxDepth: N}, db1)
+	o2, err2 := Resolve(Config{MaxDepth: N}, db2)
+	verifCover("ran-twice")
+	verifAssert("same-error-status", (err1 == nil) == (err2 == nil))
+	if err1 != nil || err2 != nil {
+		return
+	}
+	for _, r := range recipes {
+		a, b := o1[r].Elements, o2[r].Elements
+		verifAssert("same-row-count", len(a) == len(b))
+		if len(a) == len(b) {
+			for i := range a {
+				verifAssert("same-row-order", a[i].Name == b[i].Name)
+				verifAssert("same-numbers", verifSameFloat(a[i].Value, b[i].Value))
+			}
+		}
+	}
+}
